@@ -2,7 +2,7 @@
    Statements only; proofs in Parse_proofs.v. [serve] is the model of readPacket + the parsers +
    the dispatch of BaseClient.serve on a byte stream; a Go panic is the explicit outcome
    [Panic]/[EndPanic]; [EvAlloc n] records every make([]byte, n) for a packet body. *)
-From MQ Require Import Base Codec Inbound Parse ParseSpec Parse_proofs ParsePending ParsePending_proofs.
+From MQ Require Import Base Codec Inbound Parse ParseSpec Parse_proofs ParsePending ParsePending_proofs ParseExit ParseExit_proofs.
 Open Scope N_scope.
 
 (* for every byte string handed to each packet parser: no panic *)
@@ -72,6 +72,15 @@ Theorem C06_malformed_iff_protocol_error : forall handler s,
     if has_malformed s then protocol_error e else (e = EEOF \/ e = EUnexpectedEOF).
 Proof. exact serve_classified. Qed.
 
+(* "well-formed packets that preceded it are processed normally", for EVERY byte stream: the
+   hand-overs (message content included) and acknowledgements of the reader are exactly what the
+   abstract receiver of MQTT 3.1.1 section 4.3 (Inbound.spec_run, C04's specification) prescribes for
+   the well-formed PUBLISH / PUBREL packets before the first malformed packet — a QoS 2 message
+   is handed over at its PUBREL with the content it was sent with, whatever arrived in between *)
+Theorem C06_prefix_processed_normally : forall handler s,
+  sv_in_events (fst (serve handler s)) = expected_events handler s.
+Proof. exact serve_processes_prefix_normally. Qed.
+
 (* "U+0000 in a topic": for ALL byte strings pre, post (well-formed UTF-8 or not: multi-byte
    characters, stray continuation bytes, truncated and overlong sequences, FF) a byte 00 between
    them decodes to the rune U+0000 under Go's []rune(string) conversion ... *)
@@ -127,6 +136,25 @@ Theorem C06_inflight_conservative : forall f handler sb s,
   = (lift_sv (fst (serve_stream f handler sb s)), snd (serve_stream f handler sb s)).
 Proof. exact serve_pending_nil. Qed.
 
+(* "ends the connection with an error observable through Err() and the state callback": for EVERY
+   byte stream the link ends; its life after serve() returned is the order of connect.go:120-132
+   (close the transport, store the error, report StateClosed with it, close Done()), so at every
+   moment at which Done() is closed — the moment waiting requests and the reconnect loop learn that
+   the link is down — Err() already holds the loop's error, the callback has already delivered it
+   and the transport is closed; for a stream with a malformed packet it is a protocol error.
+   ([ex_done_first_is_unsafe]: closing Done() first does not satisfy this.) *)
+Theorem C06_error_observable_when_done : forall handler s,
+  exists e, snd (serve handler s) = EndErr e /\
+    Forall (done_implies_observable e) (link_states handler s) /\
+    (exists l, In l (link_states handler s) /\ lk_done l = true) /\
+    (if has_malformed s then protocol_error e else (e = EEOF \/ e = EUnexpectedEOF)).
+Proof. exact link_done_implies_observable. Qed.
+
+(* Transport.Close() — which may block — is entered with Done() still open *)
+Theorem C06_close_before_done : forall e l,
+  state_at_close link0 (exit_steps e) = Some l -> lk_done l = false.
+Proof. exact close_entered_before_done. Qed.
+
 Print Assumptions C06_parsers_no_panic.
 Print Assumptions C06_no_panic.
 Print Assumptions C06_fuel_irrelevant.
@@ -147,3 +175,6 @@ Print Assumptions C06_inflight_all_return.
 Print Assumptions C06_inflight_wrong_count.
 Print Assumptions C06_inflight_conservative.
 Print Assumptions C06_malformed_iff_protocol_error.
+Print Assumptions C06_prefix_processed_normally.
+Print Assumptions C06_error_observable_when_done.
+Print Assumptions C06_close_before_done.
